@@ -1,0 +1,26 @@
+//go:build verif
+
+// Machine-checked contracts (Gobra-style //@ comments) for the verification harness in /verif.
+// This file contains no code; it is compiled only under the build tag "verif".
+package merkle
+
+//@ spec H2(l Bytes, r Bytes) Bytes
+//@ spec proofOK(s Slice, e IntBytesArr, index Int, total Int, leaf Bytes, root Bytes) Bool
+
+//@ func SimpleHashFromTwoHashes
+//@   trusted
+//@   pure
+//@   ensures result == H2(left, right) && result != nil
+
+//@ func computeHashFromAunts
+//@   props C17 C08
+//@   pure
+//@   ensures (index < 0 || index >= total) ==> result == nil
+//@   ensures total <= 0 ==> result == nil
+
+//@ func (*SimpleProof).Verify
+//@   props C17 C08
+//@   requires sp != nil
+//@   pure
+//@   ensures result ==> 0 <= index && index < total
+//@   trusted-ensures result == proofOK(sp.Aunts, elems(sp.Aunts), index, total, leafHash, rootHash)
